@@ -274,6 +274,9 @@ func genC07(t *rapid.T) ReqCase {
 	if g.Chance(1, 5) {
 		o.TieHeavy = true
 	}
+	if g.Chance(1, 15) { // larger problems
+		o.MinAlts, o.MaxAlts, o.MaxCrit = 8, 16, 13
+	}
 	if g.Chance(1, 5) {
 		// some biases may lose their apply-probability draw: what earlier biases did must stay in force
 		o.AllowProb, o.NoMinMax = true, true
